@@ -23,6 +23,8 @@ hmod!(pub(crate) c09, "c09.rs");
 #[cfg(not(feature = "shuttle"))]
 hmod!(pub(crate) c09t, "c09t.rs");
 #[cfg(not(feature = "shuttle"))]
+hmod!(pub(crate) c10, "c10.rs");
+#[cfg(not(feature = "shuttle"))]
 hmod!(pub(crate) c15, "c15.rs");
 #[cfg(not(feature = "shuttle"))]
 hmod!(pub(crate) c17, "c17.rs");
